@@ -35,13 +35,14 @@ static const char *bin_name[B__N] = {
 	"bn_and", "bn_or", "bn_xor", "bn_cmp", "bn_gcd", "bn_gcd_bin", "bn_gcd/bn=a", "bn_gcd_bin/bn=a"
 };
 
-static void
+static NOINLINE void
 exec_bin(int op, const R *a, size_t ca, const R *b, size_t cb, size_t cr, uint8_t fill, res_t *o) {
 	bn_p X = slot[0], Y = slot[1], Z = slot[2];
 	bn_digit_t fl = 0;
 	R zero; r_zero(&zero);
 
 	memset(o, 0, sizeof(*o));
+	g_cur_a = a; g_cur_b = b; g_cur_k = ca;
 	bn_make(X, a, ca, fill);
 	bn_make(Y, b, cb, fill);
 	bn_make(Z, &zero, cr, fill);
@@ -170,14 +171,17 @@ run_bin_pair(int op, const vpair_t *vp) {
 				CALL_COUNT();
 				if (vp->lite) {
 					g_fill = (j & 2) ? 0x00 : 0xA5;
+					paint_stack(g_fill);
 					exec_bin(op, &a, ca, &b, cb, cr, g_fill, &r1);
 					check_bin(op, &a, ca, &b, cb, &r1);
 					continue;
 				}
 				g_fill = 0xA5;
+				paint_stack(0xA5);
 				exec_bin(op, &a, ca, &b, cb, cr, 0xA5, &r1);
 				check_bin(op, &a, ca, &b, cb, &r1);
 				g_fill = 0x00;
+				paint_stack(0x00);
 				exec_bin(op, &a, ca, &b, cb, cr, 0x00, &r2);
 				if (!res_same(&r1, &r2))
 					vh_fail("stale-storage", "a=0x%s (cap %zu) b=0x%s (cap %zu): fill 0xA5 -> rc=%d v=0x%s flag=%d; fill 0x00 -> rc=%d v=0x%s flag=%d",
@@ -203,13 +207,14 @@ static const char *un_name[U__N] = {
 #define FAILU(clause, fmt, ...) vh_fail(clause, "a=0x%s cap=%zu stale=0x%02x " fmt, HX(a, hx1), ca, g_fill, __VA_ARGS__)
 
 /* one unary call; k is the scalar (digit value index, exponent, bit number ...) */
-static void
+static NOINLINE void
 exec_un(int op, const R *a, size_t ca, const R *kd, size_t k, uint8_t fill, res_t *o) {
 	bn_p X = slot[0], Z = slot[2];
 	bn_digit_t fl = 0, d = r_to_digit(kd);
 	R zero; r_zero(&zero);
 
 	memset(o, 0, sizeof(*o));
+	g_cur_a = a; g_cur_b = kd; g_cur_k = k;
 	bn_make(X, a, ca, fill);
 	bn_make(Z, &zero, 1 + (k % MAXCAP), fill);
 	g_crashed = 0;
@@ -372,14 +377,17 @@ run_un_set(int op, const vun_t *vu) {
 				CALL_COUNT();
 				if (vu->lite) {
 					g_fill = ((i ^ k) & 1) ? 0x00 : 0xA5;
+					paint_stack(g_fill);
 					exec_un(op, &a, ca, &kd, k, g_fill, &r1);
 					check_un(op, &a, ca, &kd, k, &r1);
 					continue;
 				}
 				g_fill = 0xA5;
+				paint_stack(0xA5);
 				exec_un(op, &a, ca, &kd, k, 0xA5, &r1);
 				check_un(op, &a, ca, &kd, k, &r1);
 				g_fill = 0x00;
+				paint_stack(0x00);
 				exec_un(op, &a, ca, &kd, k, 0x00, &r2);
 				if (!res_same(&r1, &r2))
 					vh_fail("stale-storage", "a=0x%s cap=%zu k=%zu d=0x%s: fill 0xA5 -> rc=%d v=0x%s flag=%d; fill 0x00 -> rc=%d v=0x%s flag=%d",
@@ -389,6 +397,22 @@ run_un_set(int op, const vun_t *vu) {
 	}
 }
 
+static NOINLINE size_t
+call_query(int q, bn_p X) {
+	volatile size_t v = 0;
+	switch (q) {
+	case 0: GUARDED(v = bn_calc_bits(X)); break;
+	case 1: GUARDED(v = bn_ctz(X)); break;
+	case 2: GUARDED(v = bn_clz(X)); break;
+	case 3: GUARDED(v = (size_t)bn_is_even(X)); break;
+	case 4: GUARDED(v = (size_t)bn_is_odd(X)); break;
+	case 5: GUARDED(v = (size_t)bn_is_zero(X)); break;
+	case 6: GUARDED(v = (size_t)bn_is_one(X)); break;
+	case 7: GUARDED(v = bn_is_pow2(X)); break;
+	case 8: GUARDED(v = bn_calc_digits(X)); break;
+	}
+	return (v);
+}
 /* queries: ctz / clz / calc_bits / calc_digits / is_zero / is_one / is_pow2 / is_even / is_odd */
 static void
 run_queries(const vset_t *sa) {
@@ -407,28 +431,28 @@ run_queries(const vset_t *sa) {
 				for (b = 0; b < bl; b ++) pop += r_bit(a, b);
 				bn_make(X, a, ca, g_fill);
 				g_crashed = 0;
-				GUARDED(v = bn_calc_bits(X));
+				paint_stack(g_fill); v = call_query(0, X);
 				if (!g_crashed && v != (size_t)bl) FAILU("value", "bn_calc_bits=%zu want %d", (size_t)v, bl);
 				if (!r_is_zero(a)) {	/* ctz/clz of zero index num[-1]: outside what is judged */
-					GUARDED(v = bn_ctz(X));
+					paint_stack(g_fill); v = call_query(1, X);
 					if (!g_crashed && v != (size_t)r_ctz(a)) FAILU("value", "bn_ctz=%zu want %d", (size_t)v, r_ctz(a));
-					GUARDED(v = bn_clz(X));
+					paint_stack(g_fill); v = call_query(2, X);
 					if (!g_crashed && v != ca * (size_t)W - (size_t)bl) FAILU("value", "bn_clz=%zu want %zu", (size_t)v, ca * (size_t)W - (size_t)bl);
-					GUARDED(v = (size_t)bn_is_even(X));
+					paint_stack(g_fill); v = call_query(3, X);
 					if (!g_crashed && (0 != v) != (0 == r_bit(a, 0))) FAILU("value", "bn_is_even=%zu", (size_t)v);
 				}
-				GUARDED(v = (size_t)bn_is_odd(X));
+				paint_stack(g_fill); v = call_query(4, X);
 				if (!g_crashed && (0 != v) != (1 == r_bit(a, 0))) FAILU("value", "bn_is_odd=%zu", (size_t)v);
-				GUARDED(v = (size_t)bn_is_zero(X));
+				paint_stack(g_fill); v = call_query(5, X);
 				if (!g_crashed && (0 != v) != r_is_zero(a)) FAILU("value", "bn_is_zero=%zu", (size_t)v);
-				GUARDED(v = (size_t)bn_is_one(X));
+				paint_stack(g_fill); v = call_query(6, X);
 				if (!g_crashed && (0 != v) != r_is_one(a)) FAILU("value", "bn_is_one=%zu", (size_t)v);
-				GUARDED(v = bn_is_pow2(X));
+				paint_stack(g_fill); v = call_query(7, X);
 				if (!g_crashed && (0 != v) != (1 == pop)) FAILU("value", "bn_is_pow2=%zu", (size_t)v);
 				/* bn_calc_digits recomputes `digits` from storage below `count`: only defined when that storage is initialised */
 				bn_make(X, a, ca, 0x00);
 				X->digits = ca;
-				GUARDED(v = bn_calc_digits(X));
+				paint_stack(g_fill); v = call_query(8, X);
 				if (!g_crashed && v != r_ndigits(a)) FAILU("value", "bn_calc_digits=%zu want %zu", (size_t)v, r_ndigits(a));
 				if (!vh_case_failed && 1 == f) vh_nontrivial();
 			}
